@@ -156,7 +156,7 @@ func c01Fixed() []string {
 }
 
 func c01Gen(r *Rng, n int) []string {
-	ops := c01Fixed()
+	var ops []string
 	for len(ops) < n {
 		g := c01Gen0
 		ops = append(ops, genXdoc(r, &g, r.P(30)))
@@ -174,5 +174,6 @@ func init() {
 		Describe:  c01Describe,
 		QuickN:    4000,
 		ThoroughN: 200000,
+		Fixed:     c01Fixed,
 	})
 }
